@@ -282,6 +282,7 @@ def run(repo='/repo', tier='quick'):
                                      ('htp_tx_data_t', 'len', 'tx', 5, 'a data record is filled completely before it is handed on')],
                   'fields that change together: the stream offset moves wherever the read offset of the same direction is advanced past consumed bytes, and a body data record gets its transaction and its length in the same step')
     c06i(db, res)
+    c06j(db, res)
     return res
 
 
@@ -325,6 +326,47 @@ def c06i(db, res):
                 else:
                     res.holds('C06.i', key, 'no path un-reads bytes that were already counted', w['loc'])
     res.floor('C06.i', 'direct additions to *_message_len in state functions', n, 4)
+
+
+def c06j(db, res):
+    """Framing lines of a body (chunk-length lines, the blank lines the response side tolerates in front of them) are body
+    bytes taken from the wire. A body state that takes the consolidated view of such a line and then consumes it (clears the
+    line buffer / resynchronises the consumer position) has counted it on that path."""
+    res.rule('C06.j', 'a framing line that is consumed is counted: in every body state that takes the consolidated view (data, L) of a line, each path from there to the clearing of the line buffer (or to a resynchronisation of the consumer position) passes *_message_len += L first')
+    n = 0
+    for d, side, sd in (('in', 'request', 'req'), ('out', 'response', 'res')):
+        acc = side + '_message_len'
+        cons, clear = 'htp_connp_%s_consolidate_data' % sd, 'htp_connp_%s_clear_buffer' % sd
+        for name in sorted(P.state_functions(db, d)):
+            f = db.get(name)
+            if not P.field_writes(f, acc):
+                continue
+            for cb, ci, cc in f.calls(cons):
+                a2 = strip(cc['args'][2])
+                if not (a2.get('k') == 'un' and a2['op'] == '&'):
+                    continue
+                L = P.K(a2['e'])
+                n += 1
+                bad = None
+                for atoms, events, end, seq in P.enum_paths_seq(f, (cb, ci), max_paths=50000):
+                    counted = False
+                    for x in seq:
+                        if x[0] != 'stmt':
+                            continue
+                        if any(w.get('op') == '+=' and P.K(w['r']) == L for w in P.assigns_field(x[3], acc)):
+                            counted = True
+                        consumed = any(c2.get('callee') == clear for c2 in nodes(x[3], lambda y: y.get('k') == 'call')) or \
+                            any(w.get('op') == '=' for w in P.assigns_field(x[3], '%s_current_consume_offset' % d))
+                        if consumed and not counted:
+                            bad = x[3]
+                            break
+                        if consumed:
+                            break
+                    if bad is not None:
+                        break
+                res.check(bad is None, 'C06.j', '%s:line-consumed-after-count' % name, 'every path counts the line before it consumes it',
+                          '%s consumes the consolidated line (%s bytes) on a path that has not added it to %s: framing bytes taken from the wire are missing from the reported message length' % (name, L, acc), (bad or cc).get('loc', f.loc))
+    res.floor('C06.j', 'consolidated framing lines in body states', n, 2)
 
 
 def central_accounting(db, proc, fld):
